@@ -1151,6 +1151,21 @@ theorem colFind_ok' (S : Segmenter) {U : UData} {line : Text} {w : Nat} {L : Lis
   obtain ⟨r, hr, hp⟩ := colFind_ok S U line w L hL
   exact ⟨r, by rw [← h, hr], hp⟩
 
+/-- `first_print` (vi `^`) from a well-formed state: no panic, the result is a character boundary -/
+theorem firstPrint_ok (S : Segmenter) (U : UData) (lb : LB) (h : WF lb) :
+    ∃ p, LB.firstPrint S U lb = .ok p ∧ IsBoundary lb.buf p := by
+  obtain ⟨st, hst, hsb, hsle⟩ := startOfLine_ok lb h
+  obtain ⟨e, he, heb, hele⟩ := endOfLine_ok lb h
+  obtain ⟨line, hline⟩ := slice_ok hsb heb (by omega)
+  unfold LB.firstPrint
+  simp only [hst, he, hline, bind, Except.bind]
+  cases hf : (gidx S line).find? (fun x => !x.2.any U.ws) with
+  | none => exact ⟨e, by simp [hf, pure, Except.pure], heb⟩
+  | some ig =>
+    obtain ⟨i, g⟩ := ig
+    exact ⟨st + i, by simp [hf, pure, Except.pure],
+      gidx_slice_boundary S hline (List.mem_of_find?_eq_some hf)⟩
+
 theorem lineStart_cases {buf u rest : Text} (hb : buf = u ++ rest) :
     ∃ ds0, ((rfindChar '\n' u = none ∧ ds0 = 0) ∨ (∃ k, rfindChar '\n' u = some k ∧ ds0 = k + 1)) ∧
       IsLineStart buf ds0 ∧ ds0 ≤ blen u := by
